@@ -7,7 +7,7 @@ import numpy as np
 from .. import fileio as fio
 from . import c03, c04, c08
 
-THEOREMS = ["C06_placeholder"]
+THEOREMS = ["appendAll_form", "statsOfHdr_final", "append_sameEnc", "C06_bytes", "C06_format", "C06_sessions"]
 hx = c08.hx
 
 
